@@ -41,7 +41,7 @@ ASSUMPTIONS = [
 ]
 REQUIRED = {"route:writeSetFL": 10, "route:class": 10, "route:potable:setfl": 10, "route:potable:lammps_eam_alloy": 10,
             "elements>=3": 20, "reversed_pair": 20, "zero_filled_pair": 20, "override_beats_builtin": 10,
-            "zero_filled_function": 10}
+            "zero_filled_function": 10, "zero_override_beats_builtin": 2}
 FMT = ("e", 16)
 
 
@@ -91,6 +91,8 @@ def classes(m):
     for s, p, v in m.get("species", []):
         if s in gen.ELEMENT_TABLE and p in ("atomic_number", "atomic_mass"):
             cls.append("override_beats_builtin")
+            if v == 0:
+                cls.append("zero_override_beats_builtin")
     return sorted(set(cls))
 
 
